@@ -154,6 +154,9 @@ def check_heading_slug_func(
             raise TypeError(
                 f"'{field.name}' could not be loaded from string: {value!r}"
             ) from exc
+        if not callable(value):
+            # note: check before storing, so that a rejected value is not kept
+            raise TypeError(f"'{field.name}' is not callable: {value!r}")
         setattr(inst, field.name, value)
     if not callable(value):
         raise TypeError(f"'{field.name}' is not callable: {value!r}")
